@@ -136,6 +136,11 @@ def check_split(run, E):
         d.term, d.app = new.term, new.app
     E.methods[('DescDict', 'copy')] = dd_copy
     E.methods[('DescDict', '__setitem__')] = dd_set
+    global E_split_methods
+
+    def E_split_methods(E2):
+        E2.methods[('DescDict', 'copy')] = dd_copy
+        E2.methods[('DescDict', '__setitem__')] = dd_set
     table = [('Dataset', 'split_obs', 'obs_descriptors', 0, 2), ('Dataset', 'split_channel', 'channel_descriptors', 1, 2),
              ('TemporalDataset', 'split_obs', 'obs_descriptors', 0, 3), ('TemporalDataset', 'split_channel', 'channel_descriptors', 1, 3),
              ('TemporalDataset', 'split_time', 'time_descriptors', 2, 3)]
@@ -198,6 +203,45 @@ def check_split(run, E):
         yield ck
 
 
+def check_bin_time(run, E):
+    """bin_time: slice t of the binned measurements is the mean over axis 2 of exactly the time points whose `by` value is a
+    member of bins[t] (np.isin), its time label the mean of those values; observation / channel descriptors passed through"""
+    ck = FuncCheck(E, run, 'C11', DS + 'TemporalDataset.bin_time', '')
+
+    def mk(E):
+        return [E.sym_obj('self', 'TemporalDataset'), E.sym_val('by', tag='scalar'), E.sym_list('bins')], {}, []
+
+    def post(ck, E, args, kw, p):
+        self, by, bins = args
+        res = p.value
+        ok = isinstance(res, Obj) and res.cls == 'TemporalDataset'
+        ck.ensure('post/returns-a-temporal-dataset', z3.BoolVal(ok), structure=True)
+        if not ok:
+            return
+        m = res.fields.get('measurements')
+        okm = isinstance(m, ArrV) and len(m.shape) == 3
+        ck.ensure('post/binned-measurements-are-a-new-3d-array', z3.BoolVal(okm), structure=True, note=repr(m))
+        if not okm:
+            return
+        nb = bins.zlen()
+        ck.ensure('post/one-slice-per-bin', z3.And(m.shape[0] == E.getattr(self, 'n_obs').z, m.shape[1] == E.getattr(self, 'n_channel').z,
+                                                   m.shape[2] == nb))
+        t = z3.Int(fresh_name('bin'))
+        in_t = z3.And(t >= 0, t < nb)
+        time = E.call_lib('numpy.asarray', [E.getitem(E.getattr(self, 'time_descriptors'), by)], {})
+        members = E.app('numpy.isin', [time, E.seq_elem(bins, t)])
+        sl = slice(None, None, None)
+        want = E.call_lib('numpy.mean', [E.getitem(E.getattr(self, 'measurements'), (sl, sl, members))], dict(axis=2))
+        got = E.select(m, (None, None, t))
+        ck.ensure('post/slice-t-is-the-mean-over-exactly-the-members-of-bin-t', z3.Implies(in_t, E.veq(got, want)))
+        td = res.fields.get('time_descriptors')
+        ck.ensure('post/time-descriptors-are-a-new-dictionary', z3.BoolVal(isinstance(td, Obj) and td is not E.getattr(self, 'time_descriptors')))
+        for other in ('obs_descriptors', 'channel_descriptors', 'descriptors'):
+            ck.ensure_eq('post/passed-through-' + other, res.fields.get(other), E.getattr(self, other))
+    ck.execute(mk, post=post, allow_raise=lambda *a: None)
+    yield ck
+
+
 def run(run):
     E = engine(run)
     E.schemas.pop('Dataset', None)
@@ -210,6 +254,10 @@ def run(run):
     for ck in check_subset(run, _ctor_engine(run)):
         fails += ck.failed
     for ck in check_split(run, _ctor_engine(run)):
+        fails += ck.failed
+    Eb = _ctor_engine(run)
+    E_split_methods(Eb)
+    for ck in check_bin_time(run, Eb):
         fails += ck.failed
     finish_engine(E2, run)
     run.trust('np.argsort(kind="stable") returns the stable sorting permutation; num_index / subset_descriptor contracts (C10 K6/K7) '
